@@ -40,6 +40,7 @@
 (*               | [op |-> "mul" | "add" | "sub", a, b] | [op |-> "neg", a]*)
 (*               | [op |-> "sumto", a, dims] | [op |-> "scale", a, k]      *)
 (*               | [op |-> "get", a, key] | [op |-> "cumsum", a, l]        *)
+(*               | [op |-> "rsub", k, a]              (the number k - a)   *)
 (* The state is  [prm, flw, sin, sout, slev : sequences of arrays,         *)
 (*                life8 : sequence of lifetimes in eighths of a year]      *)
 (***************************************************************************)
@@ -105,6 +106,7 @@ Eval(st, e) ==
       [] e.op = "neg"  -> ANeg(Eval(st, e.a))
       [] e.op = "sumto" -> ASumTo(Eval(st, e.a), e.dims)
       [] e.op = "scale" -> AScale(Eval(st, e.a), RNorm(e.k[1], e.k[2]))
+      [] e.op = "rsub"  -> LET x == Eval(st, e.a) IN RA(x.dims, LAMBDA lab : NSub(RNorm(e.k[1], e.k[2]), x.val[lab]))     \* k - x
       [] e.op = "get"   -> AGet(Eval(st, e.a), e.key)
       [] e.op = "cumsum" -> ACumSum(Eval(st, e.a), e.l)
 
@@ -211,6 +213,33 @@ Exceeds(v, mode) == IsNaN(v) \/ (IF mode = "half" THEN RLess(<<1, 2>>, RAbsV(v))
 Failing(M, st, mode) == {p \in DOMAIN M.procs : \E lab \in LabelingsOver(CommonL(M, p)) : Exceeds(Balance(M, st, p, lab), mode)}
 Flagged(M, st, exc) == {f \in DOMAIN M.flows : M.flows[f].name \notin exc /\
                            \E lab \in Labelings(M.flows[f].dims) : IsNaN(st.flw[f].val[lab]) \/ st.flw[f].val[lab][1] < 0}
+
+\* ------------------------------------------------------------------ the Sankey diagram of a state (C20)
+\*   slice: sequence of <<letter, item>>; exclP: set of process names; exclF: set of flow names;
+\*   split: sequence of <<flow name, letter>> (the flow is drawn as one link per item of that dimension)
+\* one link per shown flow - or per item of its split dimension - valued with the flow's total over the entries the slice selects,
+\* running from the node of its source process to the node of its target process
+SankeyNodes(M, exclP) == SelectSeq(M.procs, LAMBDA p : p \notin exclP)
+SankeyShown(M, exclP, exclF) ==
+    {f \in DOMAIN M.flows : M.flows[f].name \notin exclF /\ M.procs[M.flows[f].from] \notin exclP /\ M.procs[M.flows[f].to] \notin exclP}
+MatchesSlice(lab, slice) == \A i \in DOMAIN slice : slice[i][1] \in DOMAIN lab => lab[slice[i][1]] = slice[i][2]
+SankeyLinks(M, st, slice, exclP, exclF, split) ==
+    UNION {LET fl == M.flows[f]
+               sel == {lab \in Labelings(fl.dims) : MatchesSlice(lab, slice)}
+           IN  IF \E i \in DOMAIN split : split[i][1] = fl.name
+               THEN LET l == split[CHOOSE i \in DOMAIN split : split[i][1] = fl.name][2]
+                    IN  {<<M.procs[fl.from], M.procs[fl.to], "item", "", it,
+                           NSumOver(LAMBDA lab : st.flw[f].val[lab], {lab \in sel : lab[l] = it})>> : it \in ItemSet(l)}
+               ELSE {<<M.procs[fl.from], M.procs[fl.to], "flow", fl.name, 0, NSumOver(LAMBDA lab : st.flw[f].val[lab], sel)>>}
+           : f \in SankeyShown(M, exclP, exclF)}
+
+\* line plot of an array (C20): one line per (subplot item, line item); its y-data are the entries along `intra` in item order,
+\* its x-data that dimension's items.  A line is <<subplot item (0: none), line item (0: none), x items, y values>>
+PlotLines(x, intra, sub, col) ==
+    LET subs == IF sub = "" THEN {0} ELSE ItemSet(sub)
+        cols == IF col = "" THEN {0} ELSE ItemSet(col)
+        labOf(s, c, i) == [l \in DimsOfA(x) |-> IF l = intra THEN i ELSE IF l = sub THEN s ELSE c]
+    IN  {<<s, c, ItemsOf[intra], [k \in 1..DLen(intra) |-> x.val[labOf(s, c, ItemsOf[intra][k])]]>> : s \in subs, c \in cols}
 
 \* ------------------------------------------------------------------ theorems of the composed contract
 AnyNaN(M, st) == \/ \E f \in DOMAIN M.flows : HasNaN(st.flw[f])
